@@ -126,6 +126,14 @@ class Prop(BaseProp):
         want = [T('ok'), ' '.join(k.split())] if ok else T('err')
         if got != want:
             return Verdict('spec', case, 'key normalisation / validation', impl=got, model=want)
+        if ok:
+            # creating a symbol from a symbol's key gives that key again (C13_normKey_idem)
+            try:
+                again = le.LicenseSymbol(s.key).key
+            except BaseException as e:  # noqa
+                return Verdict('spec', case, 'the key of a symbol is refused as a key: ' + type(e).__name__, impl=got)
+            if again != s.key:
+                return Verdict('spec', case, 'key normalisation is not idempotent', impl=[s.key, again])
         m = drv.call(T('normkey'), raw)
         if got != m:
             return Verdict('diverge', case, 'LicenseSymbol.__init__', impl=got, model=m)
@@ -141,6 +149,10 @@ class Prop(BaseProp):
                 if k % nworkers == index:
                     self.record(self.eval_pair(drv, i, j, P))
         if index == 0:
+            # the two facts about the character classes that C13_normKey_idem assumes, as the implementation has them
+            row = [r for r in impl.cls_rows() if r[0] == 32][0]
+            if not (row[1] and row[2]):
+                self.record(Verdict('diverge', {'cls': row}, 'U+0020 is not both a blank and a key character: a hypothesis of C13_normKey_idem fails'))
             for i in range(n):
                 self.record(self.eval_copy(drv, i, P))
         for _ in range(self.budget(tier, 400, 4000, nworkers, scale)):
